@@ -18,6 +18,10 @@ use crate::p2p::P2pError;
 use crate::store::{BlockRanges, Store, StoreError};
 use crate::utils::TimeExt;
 
+#[cfg(eigerco_lumina_verif)]
+#[path = "pruner_verif_hooks.rs"]
+pub mod verif_hooks;
+
 const MAX_PRUNABLE_BATCH_SIZE: u64 = 512;
 
 type Result<T, E = PrunerError> = std::result::Result<T, E>;
